@@ -1,4 +1,5 @@
 import LopdfModel.Model.Renumber
+import LopdfModel.Model.Filters
 /-
   C11 — the public editing calls as a state machine `step : Doc → Op → Outcome (Doc × Out)`:
   new_object_id, add_object, set_object (src/creator.rs); delete_object, prune_objects,
@@ -105,6 +106,8 @@ inductive Op where
   | addGState (page : ObjId) (name : Bytes) (gid : ObjId)
   | changeStream (sid : ObjId) (content deflated : Bytes)
   | changePage (page : ObjId) (content deflated : Bytes)
+  | compress (deflate : Bytes → Bytes)
+  | decompress (ext : Ext)
 
 inductive Out where
   | unit
@@ -364,6 +367,9 @@ def step (d : Doc) : Op → Outcome (Doc × Out)
   | .addGState page name gid => .ok (addGraphicsState d page name gid)
   | .changeStream sid content deflated => .ok (changeContentStream (fun _ => deflated) d sid content, .unit)
   | .changePage page content deflated => changePageContent (fun _ => deflated) d page content
+  -- `Document::compress` / `Document::decompress` (model of C09; every stream the harness builds allows compression)
+  | .compress deflate => .ok ({ d with objects := docCompress deflate (fun _ => true) d.objects }, .unit)
+  | .decompress ext => .ok ({ d with objects := docDecompress ext d.objects }, .unit)
 
 /-- a program -/
 def runOps (d : Doc) : List Op → Outcome Doc
